@@ -289,10 +289,18 @@ func Normalize(proto byte, t *Ty, v *Val) {
 		seen := map[string]bool{}
 		var ps []pair
 		for i := 0; i+1 < len(v.Elems); i += 2 {
-			if s := v.Elems[i].String(); !seen[s] {
+			// one entry per ENCODED key: two Go keys with the same encoding ("256" and "+256" bound to a smallint
+			// key) would be two wire entries with equal keys whose order is Go's map iteration order
+			enc := keyEnc(proto, t.Elems[0], v.Elems[i])
+			s := "v:" + v.Elems[i].String()
+			if enc != nil {
+				s = "e:" + string(enc)
+			}
+			if !seen[s] && !seen["v:"+v.Elems[i].String()] {
 				seen[s] = true
+				seen["v:"+v.Elems[i].String()] = true
 				Normalize(proto, t.Elems[1], v.Elems[i+1])
-				ps = append(ps, pair{v.Elems[i], v.Elems[i+1], keyEnc(proto, t.Elems[0], v.Elems[i])})
+				ps = append(ps, pair{v.Elems[i], v.Elems[i+1], enc})
 			}
 		}
 		sort.SliceStable(ps, func(i, j int) bool { return bytes.Compare(ps[i].enc, ps[j].enc) < 0 })
